@@ -150,32 +150,7 @@ func c01Dispatch(c *Ctx, r *Report, p *Prov, zoneKeys []string, rule string) {
 		r.Trivial(rule, p.Root.Name()+":line-gate", c.Pos(p.Root.Pos()), "no disjunctive line gate dominates the dispatch (all lines are walked)")
 	}
 	// zone keys inside the command walker, per JSON form the grammar allows
-	type zoneSet struct {
-		call *ssa.Call
-		form string // doc | array | ?
-	}
-	sets := map[string][]zoneSet{}
-	allInstrs(cmdFn, func(i ssa.Instruction) {
-		if call, ok := i.(*ssa.Call); ok && calleeKey(&call.Call) == omMethod("Set") && call.Call.Args[0] == ssa.Value(cmdFn.Params[0]) {
-			if k, ok := constString(call.Call.Args[1]); ok {
-				form := "?"
-				for _, a := range p.atomsAt(call.Block()) {
-					if a.Kind == "typeis" && a.Pol {
-						if kk, ok := getKeyOfValue(a.X); ok && kk == k {
-							switch {
-							case isOrderedMapPtr(a.Type):
-								form = "doc"
-							case isAnySlice(a.Type):
-								form = "array"
-							}
-						}
-					}
-				}
-				sets[k] = append(sets[k], zoneSet{call, form})
-			}
-		}
-	})
-	loops := p.walkerLoops(cmdFn)
+	sets := p.zoneSets(cmdFn)
 	for _, k := range zoneKeys {
 		forms := zoneForms[k]
 		if len(forms) == 0 {
@@ -186,13 +161,13 @@ func c01Dispatch(c *Ctx, r *Report, p *Prov, zoneKeys []string, rule string) {
 			if form != "any" && len(zoneForms[k]) > 1 {
 				construct = fmt.Sprintf("%s:zone(%s:%s)", cmdFn.Name(), k, form)
 			}
-			var call *ssa.Call
-			for _, zs := range sets[k] {
-				if form == "any" || zs.form == form {
-					call = zs.call
+			var zs *zoneSet
+			for i := range sets[k] {
+				if form == "any" || sets[k][i].form == form {
+					zs = &sets[k][i]
 				}
 			}
-			if call == nil {
+			if zs == nil {
 				what := "zone key " + k
 				if form != "any" {
 					what += " in its " + form + " form"
@@ -200,34 +175,159 @@ func c01Dispatch(c *Ctx, r *Report, p *Prov, zoneKeys []string, rule string) {
 				r.Bad(rule, construct, c.Pos(cmdFn.Pos()), what+" is not rewritten by the command walker: its literals are emitted unredacted")
 				continue
 			}
-			// value = walker(Get(cmd,k)) or fresh slice filled from Get(cmd,k)
+			r.Check(zs.srcOK && len(zs.extra) == 0, rule, construct, c.InstrPos(zs.call),
+				"cmd["+k+"] ("+form+") is replaced by the walker's result for cmd["+k+"], under lookup/type guards only"+zs.via,
+				fmt.Sprintf("zone key %s: sourceIsSameKey=%v extraConditions=%v", k, zs.srcOK, zs.extra))
+		}
+	}
+}
+
+// zoneSet: one rewrite `Set(cmd, K, walker(Get(cmd, K)))` of the command walker, found
+// directly in its body or one call level down in a helper that receives the command
+// document and the constant key (`redactMember(cmd, "filter", ...)`).
+type zoneSet struct {
+	call  *ssa.Call // the Set call
+	form  string    // doc | array | ?
+	srcOK bool      // the stored value is a walker result / rebuilt slice for the same key
+	extra []string  // guard atoms other than lookup / type tests
+	via   string
+}
+
+// getKeyValueOf: v is (a type assertion of) the value result of Get(m, key) -> (m, key).
+func getKeyValueOf(v ssa.Value) (recv, key ssa.Value, ok bool) {
+	for depth := 0; depth < 6; depth++ {
+		switch x := v.(type) {
+		case *ssa.Extract:
+			switch tp := x.Tuple.(type) {
+			case *ssa.TypeAssert:
+				v = tp.X
+				continue
+			case *ssa.Call:
+				if calleeKey(&tp.Call) == omMethod("Get") && x.Index == 0 {
+					return tp.Call.Args[0], tp.Call.Args[1], true
+				}
+			}
+			return nil, nil, false
+		case *ssa.TypeAssert:
+			v = x.X
+		case *ssa.MakeInterface:
+			v = x.X
+		case *ssa.ChangeInterface:
+			v = x.X
+		default:
+			return nil, nil, false
+		}
+	}
+	return nil, nil, false
+}
+
+func (p *Prov) zoneSets(cmdFn *ssa.Function) map[string][]zoneSet {
+	c := p.c
+	out := map[string][]zoneSet{}
+	// analyse the Set calls of fn whose receiver is recvV and whose key is keyV (a constant
+	// in the walker itself, a parameter in a helper); outer = guard atoms of the helper call
+	collect := func(fn *ssa.Function, recvV ssa.Value, keyConst string, keyV ssa.Value, outer []Atom, via string) {
+		sameKey := func(v ssa.Value) bool {
+			rv, kv, ok := getKeyValueOf(v)
+			if !ok || peel(rv) != recvV {
+				return false
+			}
+			if keyV != nil {
+				return kv == keyV
+			}
+			s, isC := constString(kv)
+			return isC && s == keyConst
+		}
+		loops := p.walkerLoops(fn)
+		allInstrs(fn, func(i ssa.Instruction) {
+			call, ok := i.(*ssa.Call)
+			if !ok || calleeKey(&call.Call) != omMethod("Set") || peel(call.Call.Args[0]) != recvV {
+				return
+			}
+			k := keyConst
+			if keyV != nil {
+				if call.Call.Args[1] != keyV {
+					return
+				}
+			} else {
+				s, isC := constString(call.Call.Args[1])
+				if !isC {
+					return
+				}
+				k = s
+			}
+			keyOf := func(v ssa.Value) bool {
+				if keyV != nil {
+					return sameKey(v)
+				}
+				rv, kv, ok := getKeyValueOf(v)
+				if !ok || peel(rv) != recvV {
+					return false
+				}
+				s, isC := constString(kv)
+				return isC && s == k
+			}
+			zs := zoneSet{call: call, form: "?", via: via}
+			atoms := p.atomsAt(call.Block())
+			for _, a := range atoms {
+				if a.Kind == "typeis" && a.Pol && keyOf(a.X) {
+					switch {
+					case isOrderedMapPtr(a.Type):
+						zs.form = "doc"
+					case isAnySlice(a.Type):
+						zs.form = "array"
+					}
+				}
+			}
 			v := peel(call.Call.Args[2])
-			srcOK := false
-			if wc, ok := v.(*ssa.Call); ok && c.staticPkgCallee(&wc.Call) != nil && len(wc.Call.Args) > 0 {
+			if wc, ok := v.(*ssa.Call); ok && c.staticPkgCallee(&wc.Call) != nil {
 				for _, a := range wc.Call.Args {
-					if kk, ok := getKeyOfValue(a); ok && kk == k {
-						srcOK = true
+					if keyOf(a) {
+						zs.srcOK = true
 					}
 				}
 			}
 			for _, ic := range loops {
-				if ic.Out == v {
-					if kk, ok := getKeyOfValue(ic.Loop.Coll); ok && kk == k {
-						srcOK = true
-					}
+				if ic.Out == v && keyOf(ic.Loop.Coll) {
+					zs.srcOK = true
 				}
 			}
-			var bad []string
-			for _, a := range p.atomsAt(call.Block()) {
+			for _, a := range append(append([]Atom{}, atoms...), outer...) {
 				if !allowedDispatchAtoms[a.Kind] {
-					bad = append(bad, a.String())
+					zs.extra = append(zs.extra, a.String())
 				}
 			}
-			r.Check(srcOK && len(bad) == 0, rule, construct, c.InstrPos(call),
-				"cmd["+k+"] ("+form+") is replaced by the walker's result for cmd["+k+"], under lookup/type guards only",
-				fmt.Sprintf("zone key %s: sourceIsSameKey=%v extraConditions=%v", k, srcOK, bad))
-		}
+			out[k] = append(out[k], zs)
+		})
 	}
+	cmdParam := ssa.Value(cmdFn.Params[0])
+	collect(cmdFn, cmdParam, "", nil, nil, "")
+	// one level of helpers: h(cmd, "K", ...)
+	allInstrs(cmdFn, func(i ssa.Instruction) {
+		call, ok := i.(*ssa.Call)
+		if !ok {
+			return
+		}
+		h := c.staticPkgCallee(&call.Call)
+		if h == nil || h == cmdFn || len(h.Params) != len(call.Call.Args) {
+			return
+		}
+		ci, ki := -1, -1
+		key := ""
+		for ai, a := range call.Call.Args {
+			if peel(a) == cmdParam {
+				ci = ai
+			}
+			if s, isC := constString(a); isC && isStringType(h.Params[ai].Type()) {
+				ki, key = ai, s
+			}
+		}
+		if ci < 0 || ki < 0 {
+			return
+		}
+		collect(h, h.Params[ci], key, h.Params[ki], p.atomsAt(call.Block()), " (through helper "+h.Name()+")")
+	})
+	return out
 }
 
 // zoneForms: the JSON forms in which each zone key occurs in the MongoDB command
